@@ -162,7 +162,7 @@ def optMeta (m : Option RMeta) : Val := vOpt (m.map metaVal)
 
 /-- Python `repr` of a `str`: single quotes unless the text has a `'` and no `"`; backslash,
 the chosen quote, tab / line feed / carriage return and the other control characters escaped
-(the texts are 7-bit: the codec's string domain) -/
+(texts are byte lists: UTF-8; bytes of printable characters outside ASCII pass through `repr` unchanged, which is the domain the harness generates) -/
 def hexDigit (n : Nat) : Nat := if n < 10 then 48 + n else 87 + n
 
 def pyReprStr (s : Str) : Str :=
